@@ -123,8 +123,10 @@ def generate(tier, seed):
         reqs += [6 * PAGE, 7 * PAGE, 32 * PAGE]
     bfs = []
     for req in reqs:
-        bfs.extend(bfs_cases(req, 250 if tier == "quick" else 3000))
+        bfs.extend(bfs_cases(req, 250 if tier == "quick" else (3000 if req <= 8 * PAGE else 150)))
     streams.append(("bfs", DRIVER, bfs))
-    rnd = [random_case(rng, rng.choice(reqs), rng.randint(5, 60)) for _ in range(150 if tier == "quick" else 3000)]
+    # the 32-page ring makes every fill/dump a 128 KiB list in the model: a few long histories on it are enough
+    small = [r for r in reqs if r <= 8 * PAGE]
+    rnd = [random_case(rng, rng.choice(small if rng.random() < 0.97 else reqs), rng.randint(5, 60)) for _ in range(150 if tier == "quick" else 1500)]
     streams.append(("random", DRIVER, rnd))
     return streams
